@@ -213,6 +213,9 @@ C14_ref(o) == \A t \in VTasks(o.post) :
                  ~EpicRefOK(o.post, t) =>
                     (t \in DOMAIN o.pre /\ o.pre[t].epic = o.post[t].epic /\ ~EpicRefOK(o.pre, t)
                      /\ VEpics(o.pre) = VEpics(o.post))
+\* "at all times": a rewrite of the log (compact) leaves every task under its epic
+C14_compact_keeps(o) == o.cmd.name = "compact" /\ o.exit = 0 =>
+                          \A t \in VTasks(o.pre) : t \in DOMAIN o.post /\ o.post[t].epic = o.pre[t].epic
 C14_epics_flat(o) == \A e \in VEpics(o.post) : o.post[e].epic = ""
 C14_bad_refused(o) ==
   LET c == o.cmd
